@@ -12,6 +12,7 @@ Three parts (see coq/Props/C03.v):
      generated scenarios (exact ordered sets); the configuration (which repairs are present) is probed.
 """
 import json
+import zlib
 import logging
 import os
 import random
@@ -23,7 +24,7 @@ from vlib import OkV, Diag, Internal  # noqa: E402
 LEVEL = 'proof'
 RULE = ('pass level: modules from tools/gen/irgen.py (all features: x op x, calls with repeated arguments, phis with '
         'repeated values, two edges to one successor, self loops, allocas, shuffled block order) plus ten hand-made '
-        'minimal witnesses; every pass of ppci.opt on a fresh copy and one random pass sequence (length 2..8) per module, '
+        'minimal witnesses, plus build-C02\'s sources: its 10 C idiom files and seeded C programs compiled by api.c_to_ir for x86_64/arm (canonical pipeline x3, Mem2Reg followed by every other pass, one random sequence) and its irgen extension incl. alias / pun kinds; every pass of ppci.opt on a fresh copy and one random pass sequence (length 2..8) per module, '
         'checked after EVERY pass; non-trivial = (module, pass) pair whose pass changed the imported module. '
         'mutators: random scenarios of 1..4 instructions over 4 values / 3 target blocks biased to repeated operands. '
         'verifier: each generated module clean and with each of 10 breaking edits.')
@@ -42,7 +43,8 @@ TRUSTED = ['tools/irimport.py (ppci.ir objects -> Coq syntax) and tools/gen/irge
            'CfgInfo.strictly_dominates of ppci is replaced in Model/Verify.v by the C25 reference dominance (property C25)',
            'Python port pywf of the Coq checker is used for search only and is compared with the Coq checker on every run',
            'Python dict / OrderedSet insertion order == association list order']
-ASSUMPTIONS = ['well-formed input = accepted by verify_module AND by the Coq checker (generated modules are both)',
+ASSUMPTIONS = ['a phi has one input per predecessor BLOCK (ppci keys Phi.inputs by block): `cjmp ? J : J` gives J one predecessor; passes that merge two different incoming values into that shape stay well-formed and are C02\'s (semantic) findings, not C03\'s',
+               'well-formed input = accepted by verify_module AND by the Coq checker (generated modules are both)',
                'verifier soundness theorem assumes uses_cover (stored uses contain the operands); the bookkeeping oracle '
                'checks exactly that on every real pass output',
                'ir.JumpTable / ir.InlineAsm are outside the hub syntax (cannot be constructed / not representable)']
@@ -328,7 +330,42 @@ def pass_level(ctx, O, irimport, irgen, ir):
         if k % 10 == 0:
             total += 1
             clean += run_one(ctx, O, irimport, build, O.PIPELINE * 3, 'irgen:%d:%d' % (seed, size), coq_cases, stats)
-    ctx.cov['stages']['pass_level'] = dict(stats, runs=total, clean=clean, modules=n_mod)
+    # ---- module sources of build-C02 (imported, not edited): C idioms through ppci's own front-end
+    # (shapes that only mem2reg + C lowering produce: two empty arms, unions / same-width puns, aliasing
+    # pointers) and the 'alias' / 'pun' ... segment kinds of c02_gen
+    import c02_csrc
+    import c02_gen
+    others = [p for p in names if p != 'Mem2Reg']
+    csources = [('csrc:%s:%s' % (nm, a), src, a) for nm, src in c02_csrc.CORPUS for a in sorted(c02_csrc.ARCHS)]
+    n_genc = 3 if ctx.quick() else 60
+    for k in range(n_genc):
+        for a in sorted(c02_csrc.ARCHS):
+            csources.append(('genc:%d:%s' % (base + k, a), c02_csrc.gen_c(random.Random(base + k)), a))
+    for origin, src, a in csources:
+        def build(src=src, a=a):
+            return c02_csrc.compile_c(src, a)
+        rr = random.Random(zlib.crc32(origin.encode()) ^ base)
+        seqs = [O.PIPELINE * 3] + [['Mem2Reg', p] for p in others]
+        seqs.append((['Mem2Reg'] if rr.random() < 0.7 else []) + [rr.choice(names) for _ in range(rr.randint(2, 7))])
+        for seq in seqs:
+            total += 1
+            clean += run_one(ctx, O, irimport, build, seq, origin, coq_cases, stats)
+    n_c02 = 40 if ctx.quick() else 500
+    for k in range(n_c02):
+        seed = base + k
+        size = 2 + k % 3
+
+        def build(seed=seed, size=size):
+            return c02_gen.gen(random.Random(seed), size, c02_gen.FEATS_QUICK)
+        rr = random.Random(seed ^ 0x3c3c)
+        seqs = [[p] for p in names] + [[rr.choice(names) for _ in range(rr.randint(2, 8))]]
+        if k % 4 == 0:
+            seqs.append(O.PIPELINE * 3)
+        for seq in seqs:
+            total += 1
+            clean += run_one(ctx, O, irimport, build, seq, 'c02gen:%d:%d' % (seed, size), coq_cases, stats)
+    ctx.cov['stages']['pass_level'] = dict(stats, runs=total, clean=clean, modules=n_mod,
+                                           c_modules=len(csources), c02gen_modules=n_c02)
     ctx.cov['distinct_nontrivial'] += stats.get('changed', 0)
     ctx.log('pass level: %d runs, %d clean, %d changed outputs, %d distinct outputs for coqc'
             % (total, clean, stats.get('changed', 0), len(coq_cases)))
@@ -434,6 +471,7 @@ def run(ctx):
     import irgen
     from ppci import ir
     from props import c03_oracle as O
+    sys.path.insert(0, os.path.dirname(os.path.abspath(__file__)))      # c02_csrc / c02_gen are top-level modules
     ok, _ = ctx.build(COQ_PROOFS + ['Model/IRWfCheck.vo', 'Model/Verify.vo', 'Model/IRStore.vo'])
     if ok:
         ctx.check_props('Props/C03.v')
@@ -459,8 +497,21 @@ def replay(rec):
     if not isinstance(origin, str):
         print('not a pass-level record:', json.dumps(rec)[:300])
         return 0
+    sys.path.insert(0, os.path.dirname(os.path.abspath(__file__)))
     if origin.startswith('witness:'):
         m = witness_modules(ir)[origin.split(':', 1)[1]][0]()
+    elif origin.startswith('csrc:'):
+        import c02_csrc
+        _, nm, a = origin.split(':')
+        m = c02_csrc.compile_c(dict(c02_csrc.CORPUS)[nm], a)
+    elif origin.startswith('genc:'):
+        import c02_csrc
+        _, seed, a = origin.split(':')
+        m = c02_csrc.compile_c(c02_csrc.gen_c(random.Random(int(seed))), a)
+    elif origin.startswith('c02gen:'):
+        import c02_gen
+        _, seed, size = origin.split(':')
+        m = c02_gen.gen(random.Random(int(seed)), int(size), c02_gen.FEATS_QUICK)
     else:
         _, seed, size = origin.split(':')
         m = irgen.gen_module(random.Random(int(seed)), int(size))
